@@ -126,6 +126,9 @@ class C18(Prop):
             text = "".join(d.choice(FREE_ALPHABET, "f", i) for i in range(n))
             if prefix and d.chance(0.7, "withprefix"):
                 text = prefix + text
+                if d.chance(0.2, "junk-before-prefix"):
+                    # something in front of the expected prefix (a leading space, a repeated beginning of the prefix itself)
+                    text = d.choice([" ", prefix[:1], prefix[: max(1, len(prefix) // 2)], "x"], "junk") + text
             cls = "free"
         entry = d.choice(["callbacks", "callbacks", "push_empty", "push_none"], "entry")
         if stop and entry == "push_none":
